@@ -7,7 +7,7 @@
 (* wrappers) must be behaviours of OpsCache; the property invariants are   *)
 (* evaluated in every state reached.                                       *)
 (*                                                                         *)
-(* Trace header: [level, inst, mode, scr, dyn, v, exact, driven, ev].      *)
+(* Trace header: [level, inst, mode, scr, dyn, v, seed, exact, driven, ev]. *)
 (* exact = TRUE: the logged (quantised) matrix entries are bound to the    *)
 (* model's matrices; otherwise only the abstract flags are bound.          *)
 (***************************************************************************)
@@ -23,7 +23,7 @@ Ev == T.ev[l]
 
 TInit == /\ tid \in 1..Len(Batch) /\ l = 1
          /\ cfg = [inst |-> Batch[tid].inst, mode |-> Batch[tid].mode, scr |-> Batch[tid].scr,
-                   dyn |-> Batch[tid].dyn, v |-> Batch[tid].v]
+                   dyn |-> Batch[tid].dyn, v |-> Batch[tid].v, seed |-> Batch[tid].seed]
          /\ InitCommon
          /\ pc = IF Batch[tid].level = "ops" THEN "ops" ELSE "ctor"
 
